@@ -407,19 +407,21 @@ where
         Stage::FFill { fill } => S::fw(s.into_fw().ffill(fill.as_ref().map(T::from_val))),
         Stage::BFill { fill } => match s {
             S::De(d) => S::fw(d.bfill(fill.as_ref().map(T::from_val))),
-            S::Fw(_) => return bad("bfill needs a double-ended stream"),
+            _ => return bad("bfill needs a double-ended stream"),
         },
         Stage::Fill { v } => S::fw(s.into_fw().fill(T::from_val(v))),
         Stage::VClip { lo, hi } => S::Fw(s.into_fw().vclip(T::from_val(lo), T::from_val(hi))),
         Stage::Rev => match s {
             S::De(d) => S::de(d.rev()),
-            S::Fw(_) => return bad("rev needs a double-ended stream"),
+            _ => return bad("rev needs a double-ended stream"),
         },
         Stage::MapId => match s {
             S::De(d) => S::de(d.map(|x| x)),
             S::Fw(f) => S::fw(f.map(|x| x)),
+            S::Pl(p) => S::Pl(Box::new(p.map(|x| x))),
         },
         Stage::Take { k } => S::fw(s.into_fw().take(*k)),
+        Stage::StepBy { k } => S::fw(s.into_fw().step_by((*k).max(1))),
         _ => return bad(format!("stage {} not available here", st.kind())),
     })
 }
@@ -462,7 +464,33 @@ stage_fn!(stage_i32, i32, container_i32, abs_num::<i32>);
 stage_fn!(stage_of64, Option<f64>, container_of64, abs_na::<Option<f64>>);
 stage_fn!(stage_oi32, Option<i32>, container_oi32, abs_na::<Option<i32>>);
 
+fn loosen<'a, T: 'a>(s: S<'a, T>, m: usize) -> S<'a, T> {
+    let m = m.max(2);
+    let mut i = 0usize;
+    S::Pl(Box::new(s.into_plain().filter(move |_| {
+        i += 1;
+        i % m != 0
+    })))
+}
+
 pub fn apply_stage<'a>(arena: &'a Arena, s: Stream<'a>, st: &Stage) -> Result<Stream<'a>, String> {
+    if let Stage::Loose { m } = st {
+        return Ok(match s {
+            Stream::F64(s) => Stream::F64(loosen(s, *m)),
+            Stream::I32(s) => Stream::I32(loosen(s, *m)),
+            Stream::OF64(s) => Stream::OF64(loosen(s, *m)),
+            Stream::OI32(s) => Stream::OI32(loosen(s, *m)),
+            Stream::Trk(s) => Stream::Trk(loosen(s, *m)),
+            Stream::RF64(s) => Stream::RF64(loosen(s, *m)),
+            Stream::RI32(s) => Stream::RI32(loosen(s, *m)),
+            Stream::ROF64(s) => Stream::ROF64(loosen(s, *m)),
+            Stream::ROI32(s) => Stream::ROI32(loosen(s, *m)),
+            Stream::RTrk(s) => Stream::RTrk(loosen(s, *m)),
+        });
+    }
+    if s.is_plain() && !matches!(st, Stage::MapId) {
+        return bad("only map applies to an untrusted stream");
+    }
     match s {
         Stream::F64(s) => stage_f64(arena, s, st),
         Stream::I32(s) => stage_i32(arena, s, st),
@@ -471,13 +499,15 @@ pub fn apply_stage<'a>(arena: &'a Arena, s: Stream<'a>, st: &Stage) -> Result<St
         Stream::Trk(s) => Ok(Stream::Trk(match st {
             Stage::Rev => match s {
                 S::De(d) => S::de(d.rev()),
-                S::Fw(_) => return bad("rev needs a double-ended stream"),
+                _ => return bad("rev needs a double-ended stream"),
             },
             Stage::MapId => match s {
                 S::De(d) => S::de(d.map(|x| x)),
                 S::Fw(f) => S::fw(f.map(|x| x)),
+                S::Pl(p) => S::Pl(Box::new(p.map(|x| x))),
             },
             Stage::Take { k } => S::fw(s.into_fw().take(*k)),
+            Stage::StepBy { k } => S::fw(s.into_fw().step_by((*k).max(1))),
             Stage::Shift { n, v } => S::Fw(s.into_fw().shift(*n, Tracked::from_val(v))),
             _ => return bad("stage not available for tracked items"),
         })),
@@ -489,12 +519,14 @@ pub fn apply_stage<'a>(arena: &'a Arena, s: Stream<'a>, st: &Stage) -> Result<St
                         Stage::MapId => match $s {
                             S::De(d) => S::de(d.map(|x| x)),
                             S::Fw(f) => S::fw(f.map(|x| x)),
+                            S::Pl(p) => S::Pl(Box::new(p.map(|x| x))),
                         },
                         Stage::Rev => match $s {
                             S::De(d) => S::de(d.rev()),
-                            S::Fw(_) => return bad("rev needs a double-ended stream"),
+                            _ => return bad("rev needs a double-ended stream"),
                         },
                         Stage::Take { k } => S::fw($s.into_fw().take(*k)),
+                        Stage::StepBy { k } => S::fw($s.into_fw().step_by((*k).max(1))),
                         _ => return bad("stage not available for fallible streams"),
                     }))
                 };
@@ -547,6 +579,8 @@ pub struct ProbeOut {
     pub float: bool,
     pub de: bool,
     pub res: bool,
+    /// the stream is an untrusted iterator: its size hint is allowed to be loose
+    pub plain: bool,
     pub sim_pulls: u64,
 }
 
@@ -563,7 +597,7 @@ pub fn probe(p: &Pipe, cut: usize) -> Result<ProbeOut, String> {
             Ok(mut s) => {
                 let hint = s.size_hint();
                 let cap = hint.1.unwrap_or(DRAIN_LIMIT).min(DRAIN_LIMIT).saturating_add(16);
-                let (float, de, res) = (s.is_float(), s.is_de(), s.is_res());
+                let (float, de, res, plain) = (s.is_float(), s.is_de(), s.is_res(), s.is_plain());
                 let (drained, capped) = s.drain(cap);
                 drop(s);
                 Ok(ProbeOut {
@@ -574,6 +608,7 @@ pub fn probe(p: &Pipe, cut: usize) -> Result<ProbeOut, String> {
                     float,
                     de,
                     res,
+                    plain,
                     sim_pulls: SIM_PULLS.with(|c| c.get()),
                 })
             },
@@ -774,6 +809,38 @@ fn write_into<'a, T: Elem + 'a>(s: S<'a, T>, buf: BufKind, len: usize) -> Result
             let v: Array1<T> = unsafe { UninitVec::assume_init(u) };
             mk(res, v.iter().map(|x| Some(x.obs())).collect())
         },
+        BufKind::NdStrided => {
+            // every second slot of a larger uninitialised buffer; the slots in between must
+            // stay untouched
+            let mut parent: Array1<MaybeUninit<T>> = <Array1<T> as Vec1<T>>::uninit(len * 2);
+            for slot in parent.iter_mut() {
+                slot.write(T::sentinel());
+            }
+            let res = {
+                let mut r = parent.slice_mut(s![..;2]);
+                if r.len() != len {
+                    return bad("strided buffer has wrong length");
+                }
+                it.write(&mut r)
+            };
+            let v: Array1<T> = unsafe { UninitVec::assume_init(parent) };
+            let mut slots: Vec<Option<Obs>> = v.iter().step_by(2).map(|x| Some(x.obs())).collect();
+            // a neighbour that was written shows up as an extra, non-sentinel slot
+            for (i, x) in v.iter().enumerate() {
+                if i % 2 == 1 {
+                    let o = x.obs();
+                    let untouched = match &o {
+                        Obs::B(b) => *b == F64_SENTINEL_BITS || *b == (I32_SENTINEL as i64 as u64),
+                        Obs::T(origin, _) => *origin == -999,
+                        _ => false,
+                    };
+                    if !untouched {
+                        slots.push(Some(o));
+                    }
+                }
+            }
+            mk(res, slots)
+        },
         BufKind::Sim => {
             let mut u: SimUninit<T> = <SimVec<T> as Vec1<T>>::uninit(len);
             let res = {
@@ -930,7 +997,92 @@ fn sink_container(sink: &Sink) -> Option<Container> {
     }
 }
 
+fn plain_value<'a, T: Elem + 'a>(s: S<'a, T>, sink: &Sink, remaining: usize) -> Result<SinkRes, String> {
+    let it = s.into_plain();
+    macro_rules! go {
+        ($c:ty, $obs:expr) => {{
+            let r: $c = match sink {
+                Sink::PlainVec1(_) => it.collect_vec1(),
+                Sink::WithLen(_) => it.collect_vec1_with_len(remaining),
+                _ => return bad("sink not available for an untrusted stream"),
+            };
+            let f: fn(&$c) -> Vec<Obs> = $obs;
+            let o = f(&r);
+            let dead = dead_instances(&o);
+            drop(r);
+            Ok(SinkRes { out: SinkOut::Seq(o), dead })
+        }};
+    }
+    match sink_container(sink) {
+        Some(Container::Vec) => go!(Vec<T>, |r| obs_vec(r.iter())),
+        Some(Container::Deque) => go!(VecDeque<T>, |r| obs_vec(r.iter())),
+        Some(Container::Array1) => go!(Array1<T>, |r| obs_vec(r.iter())),
+        Some(Container::Sim) => go!(SimVec<T>, |r| obs_vec(r.items.iter())),
+        _ => bad("container not available for an untrusted stream"),
+    }
+}
+
+fn plain_res<'a, T>(s: S<'a, TResult<T>>, sink: &Sink) -> Result<SinkRes, String>
+where
+    T: Elem + IsNone + std::fmt::Debug + 'a,
+{
+    let it = s.into_plain();
+    macro_rules! go {
+        ($c:ty, $obs:expr) => {{
+            let r: TResult<$c> = it.try_collect_vec1();
+            let f: fn(&$c) -> Vec<Obs> = $obs;
+            match r {
+                Ok(r) => Ok(SinkRes { out: SinkOut::Res(Ok(f(&r))), dead: vec![] }),
+                Err(e) => Ok(SinkRes { out: SinkOut::Res(Err(e.to_string())), dead: vec![] }),
+            }
+        }};
+    }
+    match sink {
+        Sink::TryPlain(Container::Vec) => go!(Vec<T>, |r| obs_vec(r.iter())),
+        Sink::TryPlain(Container::Deque) => go!(VecDeque<T>, |r| obs_vec(r.iter())),
+        Sink::TryPlain(Container::Array1) => go!(Array1<T>, |r| obs_vec(r.iter())),
+        Sink::TryPlain(Container::Sim) => go!(SimVec<T>, |r| obs_vec(r.items.iter())),
+        _ => bad("sink not available for an untrusted fallible stream"),
+    }
+}
+
+fn plain_opt<'a>(s: S<'a, Option<f64>>, c: Container) -> Result<SinkRes, String> {
+    let it = s.into_plain();
+    let o = match c {
+        Container::Vec => obs_vec(it.collect_vec1_opt::<Vec<f64>>().iter()),
+        Container::Deque => obs_vec(it.collect_vec1_opt::<VecDeque<f64>>().iter()),
+        Container::Array1 => obs_vec(it.collect_vec1_opt::<Array1<f64>>().iter()),
+        Container::Sim => obs_vec(it.collect_vec1_opt::<SimVec<f64>>().items.iter()),
+        Container::Polars => return bad("polars container handled separately"),
+    };
+    Ok(SinkRes { out: SinkOut::Seq(o), dead: vec![] })
+}
+
+fn run_plain_sink<'a>(s: Stream<'a>, sink: &Sink, remaining: usize) -> Result<SinkRes, String> {
+    if let Sink::OptCollect(c) = sink {
+        return match s {
+            Stream::OF64(s) => plain_opt(s, *c),
+            _ => bad("collect_vec1_opt is exercised on Option<f64> streams"),
+        };
+    }
+    match s {
+        Stream::F64(s) => plain_value(s, sink, remaining),
+        Stream::I32(s) => plain_value(s, sink, remaining),
+        Stream::OF64(s) => plain_value(s, sink, remaining),
+        Stream::OI32(s) => plain_value(s, sink, remaining),
+        Stream::Trk(s) => plain_value(s, sink, remaining),
+        Stream::RF64(s) => plain_res(s, sink),
+        Stream::RI32(s) => plain_res(s, sink),
+        Stream::ROF64(s) => plain_res(s, sink),
+        Stream::ROI32(s) => plain_res(s, sink),
+        Stream::RTrk(_) => bad("tracked fallible streams only go to try_collect_trusted_to_vec"),
+    }
+}
+
 fn run_sink<'a>(s: Stream<'a>, sink: &Sink, remaining: usize) -> Result<SinkRes, String> {
+    if s.is_plain() {
+        return run_plain_sink(s, sink, remaining);
+    }
     if sink_container(sink) == Some(Container::Polars) {
         return polars_sink(s, sink, remaining);
     }
